@@ -124,6 +124,72 @@ pub fn template_dec_case(idx: usize, g: &mut crate::gen::G) -> Value {
     let tids: Vec<String> = ets.iter().map(|t| fl.ty(t)).collect();
     dec_record(idx, "dec", json!(fl.nodes), tids, &env, &ets, &blob)
 }
+/// several *reference* values in one message whose types mention two mutually recursive families that agree or
+/// differ deep inside (wire family A/C, expected family B/D): the decoder decides `wire reference type <: expected
+/// reference type` for each, one after the other, with whatever it remembers from the earlier ones
+pub fn ref_memo_case(idx: usize, g: &mut crate::gen::G) -> Value {
+    use candid::types::{Field, Function, FuncMode, Label, TypeInner};
+    use std::rc::Rc;
+    let var = |s: &str| -> Type { TypeInner::Var(s.to_string()).into() };
+    let rec = |fs: Vec<(u32, Type)>| -> Type { TypeInner::Record(fs.into_iter().map(|(i, t)| Field { id: Rc::new(Label::Id(i)), ty: t }).collect()).into() };
+    let prims = [TypeInner::Nat, TypeInner::Text, TypeInner::Int, TypeInner::Null];
+    let p1: Type = prims[g.rng_range(0, prims.len())].clone().into();
+    let p2: Type = if g.rng_range(0, 3) == 0 { p1.clone() } else { prims[g.rng_range(0, prims.len())].clone().into() };
+    let link = g.rng_range(0, 3);
+    let wrap = |t: Type, k: usize| -> Type { match k { 0 => TypeInner::Opt(t).into(), 1 => TypeInner::Opt(t).into(), _ => TypeInner::Vec(t).into() } };
+    let mut env = TypeEnv::new();
+    let self_rec = g.rng_range(0, 2) == 0;
+    if self_rec {
+        // W = record { 0 : vec W; 1 : p }   R = record { 0 : vec R; 1 : q }
+        env.0.insert("A".into(), rec(vec![(0, wrap(var("A"), 2)), (1, p1)]));
+        env.0.insert("B".into(), rec(vec![(0, wrap(var("B"), 2)), (1, p2)]));
+        env.0.insert("C".into(), wrap(var("A"), link));
+        env.0.insert("D".into(), wrap(var("B"), link));
+    } else {
+        env.0.insert("A".into(), rec(vec![(0, wrap(var("C"), link)), (1, p1)]));
+        env.0.insert("B".into(), rec(vec![(0, wrap(var("D"), link)), (1, p2)]));
+        env.0.insert("C".into(), rec(vec![(0, wrap(var("A"), 1))]));
+        env.0.insert("D".into(), rec(vec![(0, wrap(var("B"), 1))]));
+    }
+    let f = |args: Vec<Type>, rets: Vec<Type>, modes: Vec<FuncMode>| -> Type { TypeInner::Func(Function { modes, args, rets }).into() };
+    // reference context k around t; returns the type and whether it is a function (else service) reference
+    let refctx = |k: usize, t: Type| -> (Type, bool) { match k {
+        0 => (f(vec![], vec![t], vec![]), true),
+        1 => (f(vec![t], vec![], vec![]), true),
+        2 => (f(vec![], vec![TypeInner::Vec(t).into()], vec![FuncMode::Query]), true),
+        3 => (TypeInner::Service(vec![("m".to_string(), f(vec![], vec![t], vec![]))]).into(), false),
+        _ => (TypeInner::Service(vec![("m".to_string(), f(vec![t.clone()], vec![t], vec![]))]).into(), false),
+    } };
+    // what the references mention: the families themselves, or the component types inside them (the pairs a
+    // co-inductive check of A <: B passes through)
+    let comp = |a: &str| -> Type { if self_rec { wrap(var(a), 2) } else { wrap(var(if a == "A" { "C" } else { "D" }), link) } };
+    let pairs: Vec<(Type, Type)> = vec![(var("A"), var("B")), (var("A"), var("B")), (var("C"), var("D")), (comp("A"), comp("B")), (comp("A"), comp("B")), (var("A"), var("A"))];
+    let n = g.rng_range(2, 4);
+    let pr = candid::Principal::from_slice(&[1, 2, 3]);
+    let mut wts = vec![]; let mut ets = vec![]; let mut vals = vec![];
+    let directed = g.rng_range(0, 2) == 0;      // first the families themselves in a covariant position, then their components
+    for j in 0..n {
+        let (l, r) = if directed { if j == 0 { pairs[0].clone() } else { pairs[g.rng_range(2, 5)].clone() } } else { pairs[g.rng_range(0, pairs.len())].clone() };
+        let k = if directed { [0usize, 0, 3][g.rng_range(0, 3)] } else { [0usize, 0, 1, 2, 3, 4][g.rng_range(0, 6)] };
+        let (wt, isf) = refctx(k, l);
+        let (et, _) = refctx(k, r);
+        let v = if isf { IDLValue::Func(pr, "m".to_string()) } else { IDLValue::Service(pr) };
+        if directed || g.rng_range(0, 4) != 0 { wts.push(TypeInner::Opt(wt).into()); ets.push(TypeInner::Opt(et).into()); vals.push(IDLValue::Opt(Box::new(v))); }
+        else { wts.push(wt); ets.push(et); vals.push(v); }
+    }
+    // as separate arguments, or as the fields of one record argument
+    let (wts, ets, vals) = if g.rng_range(0, 2) == 0 { (wts, ets, vals) } else {
+        let wf: Vec<(u32, Type)> = wts.iter().cloned().enumerate().map(|(i, t)| (i as u32, t)).collect();
+        let ef: Vec<(u32, Type)> = ets.iter().cloned().enumerate().map(|(i, t)| (i as u32, t)).collect();
+        let vf = vals.into_iter().enumerate().map(|(i, v)| candid::types::value::IDLField { id: Label::Id(i as u32), val: v }).collect();
+        (vec![rec(wf)], vec![rec(ef)], vec![IDLValue::Record(vf)])
+    };
+    let args = IDLArgs { args: vals };
+    let bytes = match guard(|| args.to_bytes_with_types(&env, &wts)) { Ok(Ok(b)) => b, _ => return template_dec_case(idx, g) };
+    let mut fl = Flat::new(&env);
+    let tids: Vec<String> = ets.iter().map(|t| fl.ty(t)).collect();
+    dec_record(idx, "dec", json!(fl.nodes), tids, &env, &ets, &bytes)
+}
 /// C03: what the real encoders produce, with the declared types and the abstract values
 /// a message whose type table is large (more than 64, 128 entries: multi-byte type indices)
 fn wide_msg(g: &mut crate::gen::G) -> RandMsg {
@@ -167,7 +233,7 @@ pub fn enc_case(idx: usize, g: &mut crate::gen::G) -> Value {
     json!({"idx": idx, "kind": "enc", "env": fl.nodes, "wts": wids, "vals": proj_args(&m.args),
            "blob": bytesj(&m.bytes), "again": again, "untyped": untyped, "rawvals": proj_args(&m.args)})
 }
-fn normalize(v: &IDLValue) -> IDLValue {
+pub fn normalize(v: &IDLValue) -> IDLValue {
     use candid::types::value::{IDLField, VariantValue};
     match v {
         IDLValue::Opt(x) => IDLValue::Opt(Box::new(normalize(x))),
@@ -177,7 +243,7 @@ fn normalize(v: &IDLValue) -> IDLValue {
         o => o.clone(),
     }
 }
-fn homogeneous(v: &IDLValue) -> bool {
+pub fn homogeneous(v: &IDLValue) -> bool {
     match v {
         IDLValue::Opt(x) => homogeneous(x),
         IDLValue::Vec(xs) => xs.iter().all(homogeneous) && xs.windows(2).all(|w| w[0].value_ty() == w[1].value_ty()),
@@ -208,7 +274,22 @@ pub fn tlc_enc_case(idx: usize, c: &Value) -> Value {
 // ------------------------------------------------------------------ C10
 fn out_val(r: Result<candid::Result<IDLArgs>, String>) -> Value { out_args(r) }
 /// one (env, types, abstract values) triple through annotate / typed encode / decode typed and untyped
+/// the same abstract value with the fields of every record listed in descending id order (an untyped record
+/// value is a bag of fields; nothing obliges a caller to sort them)
+pub fn reverse_records(v: &IDLValue) -> IDLValue {
+    use candid::types::value::{IDLField, VariantValue};
+    match v {
+        IDLValue::Opt(x) => IDLValue::Opt(Box::new(reverse_records(x))),
+        IDLValue::Vec(xs) => IDLValue::Vec(xs.iter().map(reverse_records).collect()),
+        IDLValue::Record(fs) => { let mut out: Vec<IDLField> = fs.iter().map(|f| IDLField { id: f.id.clone(), val: reverse_records(&f.val) }).collect(); out.sort_by_key(|f| std::cmp::Reverse(f.id.get_id())); IDLValue::Record(out) }
+        IDLValue::Variant(x) => IDLValue::Variant(VariantValue(Box::new(IDLField { id: x.0.id.clone(), val: reverse_records(&x.0.val) }), x.1)),
+        o => o.clone(),
+    }
+}
 pub fn val_case(idx: usize, envj: Value, env: &TypeEnv, tids: Vec<String>, types: &[Type], vals_abs: Value, args: &IDLArgs, origin: &str) -> Value {
+    // every third case presents its records with the fields in descending order
+    let rev = IDLArgs { args: args.args.iter().map(reverse_records).collect() };
+    let args = if idx % 3 == 2 { &rev } else { args };
     let ann = out_val(guard(|| args.clone().annotate_types(false, env, types)));
     let enc = guard(|| args.to_bytes_with_types(env, types));
     let (blob, dec_t, dec_u) = match &enc {
@@ -326,7 +407,7 @@ pub fn run(o: &Opts) {
     let mut g = crate::gen::G::new(o.seed);
     let mode = o.extra.first().map(|s| s.as_str()).unwrap_or("dec");
     for i in 0..o.n {
-        let v = match mode { "enc" => enc_case(idx, &mut g), "val" => rand_val_case(idx, &mut g, i % 2 == 1), "chain" => chain_case(idx, &mut g), _ => if i % 10 == 9 { template_dec_case(idx, &mut g) } else if i % 3 == 2 { mut_dec_case(idx, &mut g) } else { rand_dec_case(idx, &mut g) } };
+        let v = match mode { "enc" => enc_case(idx, &mut g), "val" => rand_val_case(idx, &mut g, i % 2 == 1), "chain" => chain_case(idx, &mut g), _ => if i % 10 == 9 { template_dec_case(idx, &mut g) } else if i % 10 == 4 { ref_memo_case(idx, &mut g) } else if i % 3 == 2 { mut_dec_case(idx, &mut g) } else { rand_dec_case(idx, &mut g) } };
         if idx >= o.start { out.emit(&v); }
         idx += 1;
     }
